@@ -553,10 +553,24 @@ func ruleExprEvaluate(w *World, r *Report) {
 						continue // a fresh exported iterator object
 					}
 				}
+				if c2, ok := mi.X.(*ssa.Call); ok && !c2.Call.IsInvoke() {
+					if h := c2.Call.StaticCallee(); h != nil && w.inPkg(h) && w.returnsFreshExported(h) {
+						continue // the iterator another entry point of the package builds
+					}
+				}
 				bad = "returns a wrapped value that is not a fresh iterator"
 				continue
 			}
 			c, ok := l.(*ssa.Call)
+			// an iterator obtained from a package function all of whose returns are fresh iterators
+			if ok && !c.Call.IsInvoke() {
+				if h := c.Call.StaticCallee(); h != nil && w.inPkg(h) && w.returnsFreshExported(h) {
+					continue
+				}
+			}
+			if mi, isMI := l.(*ssa.MakeInterface); isMI {
+				_ = mi
+			}
 			if !ok || !c.Call.IsInvoke() || c.Call.Method.Name() != ev || !w.isQueryType(c.Call.Value.Type()) {
 				bad = "returns a value that is neither an iterator nor the query's Evaluate result"
 				continue
@@ -1351,4 +1365,26 @@ func ruleBArityMin(w *World, r *Report) {
 	if n < 15 {
 		r.bad("B-ARITY", "min:names", "", fmt.Sprintf("only %d of the functions with required arguments found in the dispatch", n))
 	}
+}
+
+// returnsFreshExported: every normal return of h is a freshly allocated
+// object of an exported type of the package (an iterator).
+func (w *World) returnsFreshExported(h *ssa.Function) bool {
+	n := 0
+	for _, b := range h.Blocks {
+		ret, ok := normalReturn(b)
+		if !ok || len(ret.Results) != 1 {
+			continue
+		}
+		n++
+		a, ok := strip(retVal(ret, 0)).(*ssa.Alloc)
+		if !ok {
+			return false
+		}
+		nm, ok := derefNamed(a.Type())
+		if !ok || !nm.Obj().Exported() || nm.Obj().Pkg() != w.Types {
+			return false
+		}
+	}
+	return n > 0
 }
